@@ -52,12 +52,15 @@ func H_Splat() {
 	vf.Observe("expr", ei)
 	expr, diags := hclsyntax.ParseExpression([]byte(exprs[ei]), "s.hcl", hcl.InitialPos)
 	vf.Assert(!diags.HasErrors(), "catalogue-entry-parses")
+	// the reference results come from a separately parsed copy, so that the shared
+	// expression is untouched ("freshly parsed") when the goroutines start
+	ref, _ := hclsyntax.ParseExpression([]byte(exprs[ei]), "s.hcl", hcl.InitialPos)
 	parent := &hcl.EvalContext{Variables: map[string]cty.Value{}}
 	ctxs := make([]*hcl.EvalContext, g)
 	alone := make([]cty.Value, g)
 	for i := 0; i < g; i++ {
 		ctxs[i] = ctxFor(parent, i, n)
-		alone[i], _ = expr.Value(ctxs[i])
+		alone[i], _ = ref.Value(ctxs[i])
 	}
 	results := make([]cty.Value, g)
 	errs := make([]bool, g)
